@@ -586,6 +586,17 @@ def checked_depth_cuts_namespace(F):
         via = []
         mir_provenance(F, lf, du, t["args"][1], memo, via)
         if not cands:
+            # the name may come from a helper that does the check itself: then the checked depth must lie in the slice of
+            # what that helper returns
+            inner = []
+            for _c, h, hdu, _hatoms, hvia in helper_return_slices(F, lf, via, memo):
+                hd = depth_calls(F, h, hdu, memo)
+                if hd:
+                    inner.append(any(dt is v for _dbi, dt in hd for v in hvia))
+            if inner:
+                cands = [None]
+                via = [None] if all(inner) else []
+        if not cands:
             res.append(undecided("C08.P", key, lf.loc(t.get("ln")), "no computation of the remaining namespace depth (namespace length minus "
                                  "super_depth) found before this lookup"))
         elif any(dt is v for dt in cands for v in via):
@@ -746,7 +757,7 @@ def fields_touched(F, fn, memo, depth=0):
     return out
 
 
-def mir_provenance(F, f, du, operand, memo, via_calls=None):
+def mir_provenance(F, f, du, operand, memo, via_calls=None, skip_residual=False):
     """Backward data slice of an operand in MIR: the set of atoms its value is computed from -
     ('param', n), ('field', name) for every field read on the way (also inside crate-local helpers and closures the
     value passes through), ('call', last path segment) for every call on the way, ('const', text).
@@ -813,6 +824,8 @@ def mir_provenance(F, f, du, operand, memo, via_calls=None):
             atoms.add(("param", l))
         for d in du.defs.get(l, []):
             if d[2] == "call":
+                if skip_residual and any(n.endswith("from_residual") for n in callee_names(d[3]["func"])):
+                    continue        # `?` handing an error on: not part of the value computed on success
                 call(d[3])
                 continue
             rv = d[3]["rv"]
@@ -1089,6 +1102,29 @@ def _is_name_param(f, l):
     return "str" in f.local_ty(l).lower()
 
 
+_RET = {"k": "copy", "place": {"l": 0, "p": []}}
+
+
+def helper_return_slices(F, f, via, memo):
+    """for every call in `via` (calls of f that a data slice passes through) of a crate-local compiler helper: the data slice
+    of what the helper returns, in the helper's own terms: [(call term in f, helper, DefUse of helper, atoms, via calls)]"""
+    out = []
+    for c in via:
+        for n in callee_names(c["func"]):
+            h = F.fn(n, required=False)
+            if h is None or not h.mir or h is f or h.is_closure or not h.path.startswith("compiler::"):
+                continue
+            key = ("retslice", h.short)
+            if key not in memo:
+                du = DefUse(h)
+                hv = []
+                memo[key] = (du, mir_provenance(F, h, du, _RET, memo, hv, skip_residual=True), hv)
+            du, atoms, hv = memo[key]
+            out.append((c, h, du, atoms, hv))
+            break
+    return out
+
+
 def key_atoms(F, f, du, t, memo, call=None):
     """(atoms, split) of the key of the table lookup `t` in function f, in terms of the resolver: when f is a lookup helper
     called from the resolver `call = (resolver, du of resolver, call term)`, each parameter atom of the helper is replaced
@@ -1115,6 +1151,22 @@ def key_atoms(F, f, du, t, memo, call=None):
         nm = callee_names(c["func"])
         if nm and "split" in nm[0].rsplit("::", 1)[-1] and c["args"]:
             a0 = to_resolver(mir_provenance(F, f, du, c["args"][0], memo))
+            if any(x[0] == "param" and _is_name_param(rf, x[1]) for x in a0) and ("field", "current_imports") not in a0:
+                split = True
+    # the name may be built by a helper (`imported_module_function_name(function)`): a split inside it counts when what is
+    # split is a parameter of the helper that receives the called name
+    for c, h, hdu, _hatoms, hvia in helper_return_slices(F, f, via, memo):
+        for sc in hvia:
+            nm = callee_names(sc["func"])
+            if not (nm and "split" in nm[0].rsplit("::", 1)[-1] and sc["args"]):
+                continue
+            a0h = mir_provenance(F, h, hdu, sc["args"][0], memo)
+            if ("field", "current_imports") in a0h:
+                continue
+            a0 = set()
+            for a in a0h:
+                if a[0] == "param" and a[1] - 1 < len(c["args"]):
+                    a0 |= to_resolver(mir_provenance(F, f, du, c["args"][a[1] - 1], memo))
             if any(x[0] == "param" and _is_name_param(rf, x[1]) for x in a0) and ("field", "current_imports") not in a0:
                 split = True
     return to_resolver(atoms), split, rf
